@@ -269,7 +269,7 @@ public:
 	// unitary operators
 	edecimal operator-() const {
 		edecimal tmp(*this);
-		tmp.setsign(!tmp.sign());
+		if (!tmp.iszero()) tmp.setsign(!tmp.sign()); // zero has no sign
 		return tmp;
 	}
 	edecimal operator++(int) { // postfix
